@@ -119,6 +119,8 @@ class Params:
     def assume(self, cond):
         """precondition of the scenario"""
         if self.values is None:
+            if isinstance(sym.current(), sym._NoPath):
+                return  # spec code re-reading its parameters after the path has ended
             t = T(cond)
             self.assumed.append(t)
             sym.current().assume(t)
